@@ -23,8 +23,8 @@ export function buildHost(work) {
   const r = spawnSync(path.join(HOME, "target/release/sim"), ["strip", path.join(TS, "bundler.ts"), stripped], { encoding: "utf8" });
   if (r.status !== 0 || !fs.existsSync(stripped)) throw new Error("cannot strip bundler.ts: " + (r.stdout || "") + (r.stderr || ""));
   let s = fs.readFileSync(stripped, "utf8");
-  s = s.replace(/import \* as (\w+) from "([^"]+)";/g, 'const $1 = require("$2");');
-  s = s.replace(/import \{([^}]*)\} from "([^"]+)";/g, (_m, names, from) => `const {${names.replace(/ as /g, ": ")}} = require("${from}");`);
+  s = s.replace(/^import \* as (\w+) from "([^"]+)";/gm, 'const $1 = require("$2");');
+  s = s.replace(/^import \{([^}]*)\} from "([^"]+)";/gm, (_m, names, from) => `const {${names.replace(/ as /g, ": ")}} = require("${from}");`);
   s = s.replace(/export class /g, "class ").replace(/export (const|function) /g, "$1 ");
   s += "\nmodule.exports.Bundler = typeof Bundler === 'undefined' ? undefined : Bundler;\n";
   if (/^\s*import\s/m.test(s)) throw new Error("an import form the host builder does not know is left in bundler.ts");
@@ -77,9 +77,9 @@ export function buildTsNode(work) {
     const r = spawnSync(path.join(HOME, "target/release/sim"), ["strip", path.join(TS, name + ".ts"), stripped], { encoding: "utf8" });
     if (r.status !== 0 || !fs.existsSync(stripped)) throw new Error(`cannot strip ${name}.ts: ` + (r.stdout || "") + (r.stderr || ""));
     let s = fs.readFileSync(stripped, "utf8");
-    s = s.replace(/import \* as (\w+) from "([^"]+)";/g, 'const $1 = require("$2");');
-    s = s.replace(/import \{([^}]*)\} from "([^"]+)";/g, (_m, names, from) => `const {${names.replace(/ as /g, ": ")}} = require("${from}");`);
-    s = s.replace(/import (\w+) from "([^"]+)";/g, 'const $1 = (require("$2").default ?? require("$2"));');
+    s = s.replace(/^import \* as (\w+) from "([^"]+)";/gm, 'const $1 = require("$2");');
+    s = s.replace(/^import \{([^}]*)\} from "([^"]+)";/gm, (_m, names, from) => `const {${names.replace(/ as /g, ": ")}} = require("${from}");`);
+    s = s.replace(/^import (\w+) from "([^"]+)";/gm, 'const $1 = (require("$2").default ?? require("$2"));');
     const exported = [];
     s = s.replace(/export (const|class|function) (\w+)/g, (_m, k, n) => (exported.push(n), `${k} ${n}`));
     s = s.replace(/export default /g, "module.exports.default = ");
